@@ -1,6 +1,7 @@
 import S2T.Lemmas.SevenZip
 import S2T.Lemmas.Varint
 import S2T.Gen.SevenZip
+import S2T.Props.C10_Header
 /-!
 # C10 — Archive members come out as themselves: right bytes, name, order
 
@@ -18,6 +19,7 @@ witnesses on the real code every run.
 -/
 namespace S2T.C10
 open S2T.SevenZip S2T.ArchiveLoop
+open S2T.Spec.SevenZipWriter (Layout Opts WellFormed archive writeHeader startHeader)
 
 /-! ## constants -/
 
@@ -826,5 +828,110 @@ theorem C10_detect_previous_counterexample :
   decide
 
 example : (([80, 75, 3, 4] : Bytes), s "zip", 4) ∈ S2T.Gen.SevenZip.consts.signatures := by decide
+
+/-! ## 7z, from the BYTES a packer writes to the results (header round trip composed with the layout theorems) -/
+
+/-- the coder of the reference packer, as the writer specification names it -/
+def Method.spec : Method → S2T.Spec.SevenZipWriter.Method
+  | .copy => .copy
+  | .lzma p => .lzma p
+  | .lzma2 p => .lzma2 p
+
+private theorem packGroup_coder (e : Enc) (m : Method) (es : List Entry) : (packGroup e m es).coder = coderOf m.spec := by
+  cases m <;> rfl
+
+private theorem nodup_of_map {α β : Type} (f : α → β) (l : List α) (h : (l.map f).Nodup) : l.Nodup := by
+  induction l with
+  | nil => simp
+  | cons a l ih =>
+    simp only [List.map_cons, List.nodup_cons] at h ⊢
+    exact ⟨fun ha => h.1 (List.mem_map_of_mem ha), ih h.2⟩
+
+private theorem startHeader_length (crc : Bytes → Nat) (n : Nat) (h : Bytes) : (startHeader crc n h).length = 32 := by
+  simp [startHeader, S2T.Spec.SevenZipWriter.startFields, S2T.Spec.SevenZipWriter.magic, le_length]
+
+section written
+variable {ρ : Type} (env : Env ρ) (ap : Option Str)
+
+/-- **7z end to end, from the written bytes** (model of `read_archive`'s 7z path on the file a standard packer
+    writes).  `layout` = the folders (coder COPY / LZMA / LZMA2, entries listed while the folder is current),
+    `tail` = trailing directories / empty files, `o` = the header options, `x` = the attribute / mtime / CRC values
+    stored per entry.  The file is `archive crc L packs`: 32-byte start header, the pack streams, the header block
+    `writeHeader L` of the writer specification.  Then the reader (`SevenZipReader.__init__` = `parseHeader`, no
+    longer a parameter) followed by the member loop yields exactly the supported visible members, each extracted on
+    its own from its own bytes, in archive order.
+    Hypotheses that stay explicit: `CodecOk` (stdlib lzma; vacuous for COPY-only layouts), the layout is well formed,
+    no folder CRCs (`hfc`, finding 7z.substream-digests-with-folder-crc), the attributes as the reader takes them
+    (`attrsParsed`: one byte early, finding 7z.attributes-external-byte-not-read) do not flag a non-directory as
+    a directory (`hattr`), distinct member names, size limits. -/
+theorem C10_7z_written_end_to_end (c : Codec) (e : Enc) (hc : CodecOk c e) (crc : Bytes → Nat) (hcrc : ∀ b, crc b < 2 ^ 32)
+    (layout : List (Method × List Entry)) (tail : List Entry) (x : Entry → Nat × Nat × Nat) (o : Opts)
+    (gs : List Group) (es : List Entry) (L : Layout) (file : Bytes)
+    (hgs : gs = layout.map fun l => packGroup e l.1 l.2) (hes : es = allEntries gs tail)
+    (hL : L = layoutOf x (layout.map fun l => (l.1.spec, packGroup e l.1 l.2)) tail o)
+    (hfile : file = archive crc L (gs.flatMap (·.packed)))
+    (hwf : WellFormed L) (hfc : o.folderCrc = false) (hne : layout ≠ [])
+    (hlim : env.consts.maxMemorySize ≤ env.consts.maxArchiveFileSize)
+    (hm : ∀ l ∈ layout, l.1.wf ∧ streamCount l.2 ≥ 1)
+    (ht : ∀ y ∈ tail, y.hasStream = false)
+    (hattr : ∀ i (h : i < es.length), es[i].isDir = false → (attrsParsed o (es.map (specEntry x))).getD i 0 &&& 0x10 = 0)
+    (hdir : ∀ y ∈ es, y.isDir = true → y.data = [])
+    (hn : (es.map (·.name)).Nodup)
+    (hsize : file.length ≤ env.consts.max7zFileSize) (hfit : file.length < 2 ^ 63) :
+    (read7z env ap file (parseHeader S2T.Gen.SevenZip.ids fixed crc c) (fun _ => false)
+        (fun f r w => extractAll S2T.Gen.SevenZip.ids c f r w)).yields
+        = (es.filter (sevenKeep env)).flatMap (fun y => alone env ap y.name y.data)
+    ∧ (read7z env ap file (parseHeader S2T.Gen.SevenZip.ids fixed crc c) (fun _ => false)
+        (fun f r w => extractAll S2T.Gen.SevenZip.ids c f r w)).terminal = none := by
+  have hnd : es.Nodup := nodup_of_map _ _ hn
+  have hmgs : (layout.map fun l => (l.1.spec, packGroup e l.1 l.2)).map (·.2) = gs := by
+    rw [hgs]; simp [List.map_map, Function.comp_def]
+  have hesne : es ≠ [] := by
+    cases layout with
+    | nil => exact absurd rfl hne
+    | cons l ls =>
+      have h1 := (hm l (List.mem_cons_self ..)).2
+      have h2 : l.2 ≠ [] := by intro h0; rw [h0] at h1; simp [streamCount] at h1
+      rw [hes, hgs]
+      simp [allEntries, packGroup, h2]
+      cases l.1 <;> simp [h2]
+  have hlen : file.length = 32 + (gs.flatMap (·.packed)).length + (writeHeader L).length := by
+    rw [hfile]; simp [archive, startHeader_length]; omega
+  have hmix : S2T.SevenZip.mixedWithFolderCrc L = false := by
+    have : L.opts.folderCrc = false := by rw [hL]; exact hfc
+    simp [S2T.SevenZip.mixedWithFolderCrc, this]
+  have hrt := S2T.C10.Header.header_round_trip_partial crc hcrc c L hwf hmix (gs.flatMap (·.packed)) ⟨by omega, by omega⟩
+  have hst := stateOf_layoutOf x (layout.map fun l => (l.1.spec, packGroup e l.1 l.2)) tail o
+    (by intro p hp; obtain ⟨l, _, rfl⟩ := List.mem_map.mp hp; exact packGroup_coder e l.1 l.2) ht hfc
+    (by simpa using hne) (by rw [hmgs, ← hes]; exact hesne) (by rw [hmgs, ← hes]; exact hnd)
+  rw [hmgs, ← hes, ← hL] at hst
+  rw [hst, ← hfile] at hrt
+  refine C10_7z_end_to_end env ap c e hc layout tail
+    (fun y => (attrsParsed o (es.map (specEntry x))).getD (es.idxOf y) 0)
+    (startHeader crc (gs.flatMap (·.packed)).length (writeHeader L)) (writeHeader L) 0
+    (parseHeader S2T.Gen.SevenZip.ids fixed crc c) gs es file hgs hes (by rw [hfile]; rfl) hlim hm ht
+    (by simp [startHeader_length, headerOffset]) ?_ hdir hn hsize hrt
+  intro y hy hd
+  have hi := List.idxOf_lt_length_of_mem hy
+  have := hattr (es.idxOf y) hi (by rw [List.getElem_idxOf hi]; exact hd)
+  exact this
+
+end written
+
+/-- the hypotheses of `C10_7z_written_end_to_end` on a concrete layout: folder 0 = COPY{d/, a.txt, e.txt (empty)},
+    folder 1 = COPY{b.txt}; Windows attributes (0x10 / 0x20) are stored -/
+example :
+    let layout : List (Method × List Entry) := [(.copy, [exD, exA, exE]), (.copy, [exB])]
+    let x : Entry → Nat × Nat × Nat := fun e => (exAttr e, 0, 0)
+    let gs := layout.map fun l => packGroup toyEnc l.1 l.2
+    let es := allEntries gs []
+    let L := layoutOf x (layout.map fun l => (l.1.spec, packGroup toyEnc l.1 l.2)) [] {}
+    WellFormed L ∧ (∀ l ∈ layout, l.1.wf ∧ streamCount l.2 ≥ 1)
+    ∧ (∀ i (h : i < es.length), es[i].isDir = false → (attrsParsed {} (es.map (specEntry x))).getD i 0 &&& 0x10 = 0)
+    ∧ (∀ y ∈ es, y.isDir = true → y.data = []) ∧ (es.map (·.name)).Nodup := by
+  refine ⟨by decide, ?_, by decide, by decide, by decide⟩
+  intro l hl
+  simp only [List.mem_cons, List.mem_nil_iff, or_false] at hl
+  rcases hl with rfl | rfl <;> exact ⟨by simp [Method.wf], by decide⟩
 
 end S2T.C10
